@@ -104,7 +104,7 @@ Proof.
   destruct (parse_value_loop (S (length s)) s); cbn [bind]; [|exact P|exact P].
   destruct (Nat.even (trailing_backslashes s)).
   - rewrite !app_nil_r. reflexivity.
-  - set (b := (length s - trailing_backslashes s)%nat).
+  - set (b := (length s - 1)%nat).
     rewrite app_assoc, <- rtrim_hspace_skipn. symmetry. apply firstn_skipn.
 Qed.
 
